@@ -20,10 +20,21 @@ ToaExp(ev) == LET t == Text(ev) IN
 W(fn) == CASE fn \in {"i8", "u8"} -> 1 [] fn \in {"i16", "u16"} -> 2 [] fn \in {"i32", "u32"} -> 4 [] OTHER -> 8
 AtoExp(ev) == LET r == IF Signed(ev.fn) THEN ParseI(ev.text, ev.base, 8) ELSE ParseU(ev.text, ev.base, 8)
               IN [val |-> SubSeq(r.val, 1, W(ev.fn)), endoff |-> r.end]
+RevSeq(q) == [i \in 1..Len(q) |-> q[Len(q) + 1 - i]]
+\* w digits per byte, byte after byte (F renders one byte)
+PerByte(q, w, F(_)) == [j \in 1..(w * Len(q)) |-> F(<<q[((j - 1) \div w) + 1]>>)[((j - 1) % w) + 1]]
 DprExp(ev) ==
    [out |-> CASE ev.fn \in {"dec_i8", "dec_i16", "dec_i32", "dec_i64", "dec_il"} -> RenderI(ev.val, 10, TRUE)
               [] ev.fn \in {"dec_u8", "dec_u16", "dec_u32", "dec_u64", "dec_uc", "dec_ul"} -> RenderU(ev.val, 10, TRUE)
+              [] ev.fn \in {"dec_us", "dec_ui"} -> RenderU(ev.val, 10, TRUE)
               [] ev.fn \in {"hex_u8", "hex_u16", "hex_u32", "hex_u64"} -> HexFixed(ev.val)
+              \* the printers named after C types and the pointer printer: the value, most significant digit first, full width
+              [] ev.fn \in {"hex_c", "hex_uc", "hex_sc", "hex_us", "hex_ss", "hex_ui", "hex_si", "hex_ul", "hex_sl", "hex_ull", "hex_sll", "hex_ptr"} -> HexFixed(ev.val)
+              \* memory images (val = the bytes in address order): two hex / eight binary digits per byte, in address order or reversed
+              [] ev.fn = "mem_hex" -> PerByte(ev.val, 2, HexFixed)
+              [] ev.fn = "mem_hexr" -> PerByte(RevSeq(ev.val), 2, HexFixed)
+              [] ev.fn = "mem_bin" -> PerByte(ev.val, 8, BinFixed)
+              [] ev.fn = "mem_binr" -> PerByte(RevSeq(ev.val), 8, BinFixed)
               [] OTHER -> BinFixed(ev.val)]
 TInit == JInit /\ l = 1 /\ sync = TRUE
 TNext ==
